@@ -78,8 +78,9 @@ def base_columns(L, seed, dtype, degrees):
     if dtype == "f8" and L >= 4:
         # two records 1e-7 deg either side of the bisector of the two centres (the meridian ra = 12.5): far above double
         # precision rounding, far below single precision
-        ra[L - 1], side[L - 1] = 12.5 - 1e-7, 0
-        ra[L - 2], side[L - 2] = 12.5 + 1e-7, 1
+        for k, eps in enumerate((1e-7, 3e-8, 1e-8, 3e-9)[: min(4, L)]):
+            sgn = 1 if k % 2 else -1
+            ra[L - 1 - k], side[L - 1 - k] = 12.5 + sgn * eps, (1 if sgn > 0 else 0)
     if not degrees:
         ra = np.deg2rad(ra.astype("f8")).astype("f8" if dtype == "i8" else dtype)
         dec = np.deg2rad(dec.astype("f8")).astype("f8" if dtype == "i8" else dtype)
